@@ -113,6 +113,24 @@ DepthFold(E, order, k, acc) ==
 DepthTable(n, E) == DepthFold(E, CanonTopo(n, E), 1, <<>>)
 Depth(n, E, v) == DepthTable(n, E)[v]
 
+(* get_node_depth(node, func=min): the depth through the shallowest parent -- *)
+(* a source has depth 1, any other node 1 + the SMALLEST (shallowest) depth   *)
+(* of its parents, i.e. the number of nodes on the shortest chain from a     *)
+(* source to it                                                              *)
+RECURSIVE MinDepthDef(_, _)
+MinDepthDef(E, v) ==
+    IF Pred(E, v) = {} THEN 1 ELSE 1 + MinOf({MinDepthDef(E, p) : p \in Pred(E, v)})
+
+RECURSIVE MinDepthFold(_, _, _, _)
+MinDepthFold(E, order, k, acc) ==
+    IF k > Len(order) THEN acc
+    ELSE LET v == order[k]
+         IN  MinDepthFold(E, order, k + 1,
+                 acc @@ (v :> IF Pred(E, v) = {} THEN 1
+                              ELSE 1 + MinOf({acc[p] : p \in Pred(E, v)})))
+MinDepthTable(n, E) == MinDepthFold(E, CanonTopo(n, E), 1, <<>>)
+MinDepth(n, E, v) == MinDepthTable(n, E)[v]
+
 -----------------------------------------------------------------------------
 (* source-to-sink paths and their weights *)
 
@@ -153,5 +171,46 @@ LongestPathOK(n, E, W, p)    == IsSrcSinkPath(n, E, p) /\ Wt(W, p) = LongestWeig
 
 \* Graph.get_longest_path(weights=None): a source counts 1, any other node 2
 DefaultW(n, E) == [v \in Nodes(n) |-> IF v \in Sources(n, E) THEN 1 ELSE 2]
+
+-----------------------------------------------------------------------------
+(* The graph OBJECT as a state machine.  A Graph / TaskGraph / JobGraph is    *)
+(* mutable: its state is the current node set V and edge set E; the public   *)
+(* mutators are add_node, add_child and remove.  Every public query must be  *)
+(* a function of the CURRENT state <<V, E>> only -- never of the history of  *)
+(* earlier queries or of the way the state was reached.  (DagTrace judges    *)
+(* every recorded query against the state at the version it was asked on;    *)
+(* DagMC explores the machine and is the generator of mutate / query walks.) *)
+
+EmptyG == [V |-> {}, E |-> {}]
+WellFormedG(G) == \A e \in G.E : e[1] \in G.V /\ e[2] \in G.V
+
+\* add_node(v): a node without children; a no-op on an existing node
+AddNodeG(G, v) == [V |-> G.V \cup {v}, E |-> G.E]
+
+\* add_child(a, c): the parent must be a node (ValueError otherwise); the child
+\* becomes a node if it is none yet.  Graphs are simple: an edge is added once.
+CanAddChild(G, a, c) == a \in G.V /\ <<a, c>> \notin G.E
+AddChildG(G, a, c) == [V |-> G.V \cup {c}, E |-> G.E \cup {<<a, c>>}]
+
+\* remove(v): Graph.remove unlinks v from its children only (the child lists of
+\* its parents keep it), so the object is a graph again exactly when v has no
+\* parent; only that case belongs to the machine.  The node disappears together
+\* with its outgoing edges.
+CanRemove(G, v) == v \in G.V /\ Pred(G.E, v) = {}
+RemoveG(G, v) == [V |-> G.V \ {v}, E |-> {e \in G.E : e[1] # v}]
+
+\* Graph(mapping) = add_node(node, *children) for every item of the mapping,
+\* add_node(node, *children) = add_node(node); add_child(node, c) for every c
+RECURSIVE AddChildrenG(_, _, _, _)
+AddChildrenG(G, a, cs, k) ==
+    IF k > Len(cs) THEN G ELSE AddChildrenG(AddChildG(G, a, cs[k]), a, cs, k + 1)
+
+\* The definitions above are written for node sets 1..n.  After a removal the
+\* node set is an arbitrary finite set of naturals: it is renamed to 1..|V|
+\* by rank (order preserving); a value that is no node is renamed to 0.
+Rank(V, v) == IF v \in V THEN Cardinality({u \in V : u <= v}) ELSE 0
+Unrank(V, i) == CHOOSE v \in V : Rank(V, v) = i
+CompactE(G) == {<<Rank(G.V, e[1]), Rank(G.V, e[2])>> : e \in G.E}
+IsCompact(V) == V = 1..Cardinality(V)
 
 =============================================================================
